@@ -117,6 +117,9 @@ pub enum Variant {
     /// a call OUTSIDE the property's domain (tag of 256..=400 bytes): its outcome is ignored (a panic is
     /// caught as a long-lived worker would); the calls after it are still compared with the model
     OutOfDomainTag(u8),
+    /// move k bytes across the msg | tag boundary (k > 0: from the end of msg to the front of the tag; k < 0: from
+    /// the front of the tag to the end of msg): msg || tag stays the same byte string, the request does not
+    ShiftBoundary(i8),
 }
 
 #[derive(Clone, Debug, Serialize, Deserialize, PartialEq, Eq, Hash)]
@@ -136,6 +139,7 @@ fn related_strategy() -> BoxedStrategy<RelatedCase> {
         2 => Just(Variant::OtherMode),
         1 => Just(Variant::OtherGroup),
         1 => any::<u8>().prop_map(Variant::OutOfDomainTag),
+        3 => prop_oneof![Just(1i8), Just(-1i8), -12i8..=12].prop_map(Variant::ShiftBoundary),
     ];
     (prop_oneof![h2c_strategy(0), h2c_strategy(0), h2c_strategy(1)], proptest::collection::vec(v, 1..5)).prop_map(|(base, variants)| RelatedCase { base, variants }).boxed()
 }
@@ -165,6 +169,11 @@ fn check_related(c: &RelatedCase, info: &mut Info) -> Result<(), String> {
             Variant::OtherExpander(e) => next.expander = *e,
             Variant::OtherMode => next.ro = !cur.ro,
             Variant::OtherGroup => next.group = 1 - cur.group % 2,
+            Variant::ShiftBoundary(k) => {
+                let (m2, d2) = super::c13::shift_boundary(&cur.msg.build(), &cur.dst.build(), *k);
+                next.msg = BytesR::Lit(m2);
+                next.dst = BytesR::Lit(d2);
+            }
             Variant::OutOfDomainTag(n) => {
                 let long: Vec<u8> = (0..256 + (*n as usize * 145) / 255).map(|i| (i % 251) as u8).collect();
                 let e = expander_of(cur.expander);
@@ -182,6 +191,7 @@ fn check_related(c: &RelatedCase, info: &mut Info) -> Result<(), String> {
             Variant::OtherMode => "other-mode",
             Variant::OtherGroup => "other-group",
             Variant::OutOfDomainTag(_) => "same-input-after-an-out-of-domain-call",
+            Variant::ShiftBoundary(_) => "msg-tag-boundary-shifted",
         }));
         let mut tmp = Info::default();
         check_h2c(&next, &mut tmp).map_err(|m| format!("after hashing a related input first: {}", m))?;
